@@ -11,6 +11,7 @@ import (
 	"sync"
 
 	"github.com/creachadair/jrpc2/channel"
+	"github.com/creachadair/jrpc2/internal/verifhook"
 )
 
 // A Client is a JSON-RPC 2.0 client. The client sends requests and receives
@@ -83,6 +84,7 @@ func (c *Client) accept(ch receiver) error {
 		if !isUninteresting(err) {
 			c.log("Decoding error: %v", err)
 		}
+		verifhook.Point("cli.recverr")
 		c.mu.Lock()
 		defer c.stopLocked(err)()
 		c.mu.Unlock()
@@ -93,6 +95,7 @@ func (c *Client) accept(ch receiver) error {
 	c.done.Add(1)
 	go func() {
 		defer c.done.Done()
+		verifhook.Point("cli.deliver")
 		c.mu.Lock()
 		defer c.mu.Unlock()
 		for _, rsp := range in {
@@ -125,6 +128,7 @@ func (c *Client) handleRequestLocked(msg *jmessage) {
 			defer c.done.Done()
 			bits := c.scall(ctx, msg)
 
+			verifhook.Point("cli.cbreply")
 			c.mu.Lock()
 			defer c.mu.Unlock()
 			if c.err != nil {
@@ -173,6 +177,7 @@ func (c *Client) req(ctx context.Context, method string, params any) (*jmessage,
 		return nil, err
 	}
 
+	verifhook.Point("cli.req")
 	c.mu.Lock()
 	defer c.mu.Unlock()
 	id := json.RawMessage(strconv.FormatInt(c.nextID, 10))
@@ -224,6 +229,7 @@ func (c *Client) send(ctx context.Context, reqs jmessages) ([]*Response, error) 
 		}
 	}
 
+	verifhook.Point("cli.send")
 	c.mu.Lock()
 	defer c.mu.Unlock()
 	if c.err != nil {
@@ -251,6 +257,7 @@ func (c *Client) send(ctx context.Context, reqs jmessages) ([]*Response, error) 
 func (c *Client) waitComplete(pctx context.Context, id string, p *Response) {
 	<-pctx.Done()
 	cleanup := func() {}
+	verifhook.Point("cli.watch")
 	c.mu.Lock()
 	defer func() {
 		c.mu.Unlock()
@@ -378,6 +385,7 @@ func (c *Client) Notify(ctx context.Context, method string, params any) error {
 
 // Close shuts down the client, terminating any pending in-flight requests.
 func (c *Client) Close() error {
+	verifhook.Point("cli.close")
 	c.mu.Lock()
 	defer c.stopLocked(errClientStopped)()
 	c.mu.Unlock()
